@@ -95,7 +95,9 @@ def _core_atoms(seed, n):
 
 
 def _date_specs():
-    specs = [["short", "240101"], ["short", "231231"]]
+    # two-digit years on both sides of strptime's %y pivot: all of them mean 20YY
+    specs = [["short", "240101"], ["short", "231231"], ["short", "680229"], ["short", "690101"], ["short", "991231"],
+             ["short", "000101"]]
     for n in (0, 1, 2, 11, 12, 13, 31, 366):
         for unit in "dmy":
             for past in (False, True):
